@@ -102,13 +102,14 @@ Definition render_include (quiet : bool) (es : list nexpr) (ign : bool) (s : sst
             end
   end).
 
-(* a macro sees the render's root value and its argument; what it writes is its value *)
-Definition smacro (c : chain) (body : list item) (arg : Z) (s : sst) : outcome sst :=
-  bind (call (SBody false c None body) (mkSst (mkVenv (root (svars s)) [[(v_param, str_of arg)]; []]) []))
+(* a macro sees the render's root value, its argument and the variables it encloses (their values
+   when it was declared); what it writes is its value *)
+Definition smacro (c : chain) (body : list item) (clo : frame) (arg : Z) (s : sst) : outcome sst :=
+  bind (call (SBody false c None body) (mkSst (mkVenv (root (svars s)) [[(v_param, str_of arg)]; clo]) []))
        (fun s2 => Ok (semit (sout s2) s)).
 Definition scall_value (c : chain) (o : option value) (arg : Z) (s : sst) : outcome sst :=
   match o with
-  | Some (VMacro body) => smacro c body arg s
+  | Some (VMacro body clo) => smacro c body clo arg s
   | _ => Err E_InvalidOperation                         (* not callable *)
   end.
 
@@ -151,7 +152,7 @@ Definition sstep (lvl0 quiet : bool) (c : chain) (cur : option (name * nat)) (it
       if lvl0 then Ok s                       (* followed when the chain was built *)
       else Err E_Unmodelled
   | IInclude es ign => render_include quiet es ign s
-  | IMacro f body => sset f (VMacro body) s
+  | IMacro f body => sset f (VMacro body (closure_of (enclosed body) (svars s))) s
   | ICall f arg =>
       match lookup f (svars s) with
       | None => Err E_UnknownFunction
@@ -160,7 +161,7 @@ Definition sstep (lvl0 quiet : bool) (c : chain) (cur : option (name * nat)) (it
   | IImport e m =>
       bind (import_scope false e (mkSst (svars s) [])) (fun s2 =>
       match frames (svars s2) with
-      | exports :: r => sset m (VModule exports) (mkSst (mkVenv (root (svars s2)) r) (sout s))
+      | exports :: r => sset m (VModule exports (sout s2)) (mkSst (mkVenv (root (svars s2)) r) (sout s))
       | [] => Panic
       end)
   | IFrom e xs =>
@@ -174,13 +175,13 @@ Definition sstep (lvl0 quiet : bool) (c : chain) (cur : option (name * nat)) (it
   | IPrintAttr m x =>
       match lookup m (svars s) with
       | None | Some VUndef => Err E_UndefinedError
-      | Some (VModule kvs) => bind (printed (assoc x kvs)) (fun t => Ok (semit t s))
+      | Some (VModule kvs _) => bind (printed (assoc x kvs)) (fun t => Ok (semit t s))
       | Some (VStr _) => Ok s
-      | Some (VMacro _) => Err E_Unmodelled
+      | Some (VMacro _ _) => Err E_Unmodelled
       end
   | ICallAttr m f arg =>
       match lookup m (svars s) with
-      | Some (VModule kvs) =>
+      | Some (VModule kvs _) =>
           match assoc f kvs with
           | None => Err E_UnknownMethod
           | o => scall_value c o arg s
@@ -190,9 +191,13 @@ Definition sstep (lvl0 quiet : bool) (c : chain) (cur : option (name * nat)) (it
   | IKeys m =>
       match lookup m (svars s) with
       | None | Some VUndef => Ok s
-      | Some (VModule kvs) => Ok (semit (key_tokens kvs) s)
+      | Some (VModule kvs _) => Ok (semit (key_tokens kvs) s)
       | Some _ => Err E_Unmodelled
       end
+  | ISetBlock x body =>
+      (* the body is rendered (not quietly: its text is the value) and bound to x *)
+      bind (call (SBody false c cur body) (mkSst (svars s) [])) (fun s2 =>
+      sset x (VStr (sout s2)) (mkSst (svars s2) (sout s)))
   end.
 
 Fixpoint slist (lvl0 quiet : bool) (c : chain) (cur : option (name * nat)) (its : list item) (s : sst) : outcome sst :=
